@@ -1,4 +1,5 @@
 import CV.Proofs.BackendAns
+import CV.Proofs.BackendAnsStep
 /-!
 # C17 ∘ C01/C07/C09 — the ANS model's abstract backend is a faithful image of the backends
 
@@ -118,8 +119,90 @@ theorem C17_ans_rev_write (r : RevCursor) (hI : r.inner.Inv) (st w : Nat) :
 example : ansRead (absRev ⟨⟨[9, 8, 7], 1⟩⟩ 5) = (some 8, absRev ⟨⟨[9, 8, 7], 2⟩⟩ 5) :=
   (C17_ans_rev_read ⟨⟨[9, 8, 7], 1⟩⟩ 5).symm
 
+/-! ## composition with the ANS theorems
+
+`encodeCPOn`/`encodeOn`/`decodeOn` (`Model/BackendAns.lean`) are `encode_symbol` /
+`decode_symbol` of `stack.rs` written over an explicit backend (`cursorOps`: `Cursor.write` /
+`Cursor.readStack`; `revCursorOps`; `vecOps`).  They are the image of `Ans.encodeCP` /
+`Ans.encode` / `Ans.decode` under the abstractions, so every theorem about `CV.Ans` is a
+theorem about the coder running on the backend models. -/
+
+/-- `encode_symbol` over a `Cursor` (`pos ≤ len`) = `Ans.encodeCP` on `absCur`; in particular
+    `Err(backendFull)` ⇔ the cursor's write is refused, and then nothing has changed -/
+theorem C17_ans_cursor_encode (c : Cfg) (cur : Cursor) (hI : cur.Inv) (st cum p : Nat) :
+    Ans.encodeCP c (absCur cur st) cum p = liftEnc absCur (encodeCPOn cursorOps c cur st cum p) :=
+  encodeCPOn_sim sim_cursor c cur hI st cum p
+
+/-- `decode_symbol` over a `Cursor` = `Ans.decode` on `absCur` -/
+theorem C17_ans_cursor_decode {Sym : Type} (c : Cfg) (m : Model Sym) (cur : Cursor) (hI : cur.Inv)
+    (st : Nat) :
+    Ans.decode c m (absCur cur st) = liftDec absCur (decodeOn cursorOps c m cur st) :=
+  decodeOn_sim sim_cursor c m cur hI st
+
+/-- the same for `Vec` and for `Reverse<Cursor>` -/
+theorem C17_ans_vec_rev_steps {Sym : Type} (c : Cfg) (m : Model Sym) (v : VecB) (r : RevCursor)
+    (hI : r.inner.Inv) (st cum p : Nat) :
+    Ans.encodeCP c (absVec v st) cum p = liftEnc absVec (encodeCPOn vecOps c v st cum p) ∧
+    Ans.decode c m (absVec v st) = liftDec absVec (decodeOn vecOps c m v st) ∧
+    Ans.encodeCP c (absRev r st) cum p = liftEnc absRev (encodeCPOn revCursorOps c r st cum p) ∧
+    Ans.decode c m (absRev r st) = liftDec absRev (decodeOn revCursorOps c m r st) :=
+  ⟨encodeCPOn_sim sim_vec c v trivial st cum p, decodeOn_sim sim_vec c m v trivial st,
+    encodeCPOn_sim sim_revCursor c r hI st cum p, decodeOn_sim sim_revCursor c m r hI st⟩
+
+/-- a refused encode happens only when the cursor is full (`pos = len`) -/
+theorem C17_ans_cursor_full_only_when_full (c : Cfg) (cur : Cursor) (hI : cur.Inv) (st cum p : Nat)
+    (he : encodeCPOn cursorOps c cur st cum p = .error .backendFull) : cur.pos = cur.buf.length := by
+  have h := sim_full_only_when_full sim_cursor c cur hI st cum p he
+  have hI' : cur.pos ≤ cur.buf.length := hI
+  simp [Ans.canWrite, absCur, Nat.min_eq_left hI'] at h
+  omega
+
+/-- **`CV.Ans.C01.decode_encode` transported to the cursor-backed coder**
+    (`AnsCoder<Word, State, Cursor<Word, Buf>>`, all valid `Cfg`, all well-formed models, all
+    coder states satisfying the ANS invariant): with room for one word the encode succeeds;
+    whenever it succeeds, the following decode with the same model returns the symbol and the
+    old `state`, and the cursor is back at the old position with the same stack contents. -/
+theorem C17_ans_cursor_decode_encode {Sym : Type} {c : Cfg} (hc : c.Valid) {m : Model Sym}
+    (hm : m.WellFormed c.P) (cur : Cursor) (hI : cur.Inv) (st : Nat)
+    (hx : Ans.Inv c (absCur cur st)) {s : Sym} {cp : Nat × Nat} (henc : m.enc s = some cp) :
+    (cur.pos < cur.buf.length → ∃ cur' st', encodeOn cursorOps c m s cur st = .ok (cur', st')) ∧
+    (∀ cur' st', encodeOn cursorOps c m s cur st = .ok (cur', st') →
+      cur'.Inv ∧ Ans.Inv c (absCur cur' st') ∧
+      ∃ cur'', decodeOn cursorOps c m cur' st' = .ok (s, cur'', st) ∧ cur''.Inv ∧
+        absCur cur'' st = absCur cur st ∧ cur''.pos = cur.pos) := by
+  have hI' : cur.pos ≤ cur.buf.length := hI
+  refine ⟨fun hroom => ?_, fun cur' st' hok => ?_⟩
+  · exact sim_encode_succeeds sim_cursor hc hm cur hI st hx henc
+      (by simp [Ans.canWrite, absCur, Nat.min_eq_left hI']; exact hroom)
+  · obtain ⟨h1, h2, cur'', h3, h4, h5⟩ := sim_decode_encode sim_cursor hc hm cur hI st hx henc cur' st' hok
+    refine ⟨h1, h2, cur'', h3, h4, h5, ?_⟩
+    have h4' : cur''.pos ≤ cur''.buf.length := h4
+    have := congrArg (fun x => x.bulk.length) h5
+    simpa [absCur, Nat.min_eq_left hI', Nat.min_eq_left h4'] using this
+
+/-- the generic form (any backend simulated by the abstract one: `Vec`, `Reverse<Cursor>`, …) -/
+theorem C17_ans_sim_decode_encode {β Sym : Type} {B : BackendOps β} {good : β → Prop}
+    {abs : β → Nat → Ans.Coder} (h : Sim B good abs) {c : Cfg} (hc : c.Valid)
+    {m : Model Sym} (hm : m.WellFormed c.P) (b : β) (hg : good b) (st : Nat)
+    (hx : Ans.Inv c (abs b st)) {s : Sym} {cp : Nat × Nat} (henc : m.enc s = some cp)
+    (b' : β) (st' : Nat) (hok : encodeOn B c m s b st = .ok (b', st')) :
+    good b' ∧ Ans.Inv c (abs b' st') ∧
+    ∃ b'', decodeOn B c m b' st' = .ok (s, b'', st) ∧ good b'' ∧ abs b'' st = abs b st :=
+  sim_decode_encode h hc hm b hg st hx henc b' st' hok
+
+/-- non-vacuity: `Word = u8`, `State = u16`, `P = 4`, a cursor over 4 words at position 1
+    holding a valid coder state; encode then decode of a table-model symbol -/
+example : (encodeCPOn cursorOps ⟨8, 16, 4, 8⟩ ⟨[0x12, 0, 0, 0], 1⟩ 0xf234 3 2).toOption.isSome = true := by
+  decide
+
 end CV.Backend.AnsAbs.C17
 
+#print axioms CV.Backend.AnsAbs.C17.C17_ans_cursor_encode
+#print axioms CV.Backend.AnsAbs.C17.C17_ans_cursor_decode
+#print axioms CV.Backend.AnsAbs.C17.C17_ans_vec_rev_steps
+#print axioms CV.Backend.AnsAbs.C17.C17_ans_cursor_full_only_when_full
+#print axioms CV.Backend.AnsAbs.C17.C17_ans_cursor_decode_encode
+#print axioms CV.Backend.AnsAbs.C17.C17_ans_sim_decode_encode
 #print axioms CV.Backend.AnsAbs.C17.C17_ans_vec_write
 #print axioms CV.Backend.AnsAbs.C17.C17_ans_vec_read
 #print axioms CV.Backend.AnsAbs.C17.C17_ans_vec_seek
